@@ -9,6 +9,7 @@ import (
 	"io"
 	"net/http"
 	"net/url"
+	"sort"
 	"strings"
 	"time"
 
@@ -220,6 +221,10 @@ func runPubScenario(sc J) []stepResult {
 					cw.header.Set("Date", "Mon, 01 Jan 2001 00:00:00 GMT")
 					cw.header.Set("Digest", "SHA-256=stale")
 				}
+				before := http.Header{}
+				for k, vs := range cw.header {
+					before[k] = append([]string{}, vs...)
+				}
 				var handled bool
 				switch entry {
 				case "postInbox":
@@ -238,6 +243,20 @@ func runPubScenario(sc J) []stepResult {
 				}
 				obs["handled"] = handled
 				obs["err"] = errClassPub(err)
+				// what the library did to the header map (beyond what was there before the request)
+				var touched []interface{}
+				for k, vs := range cw.header {
+					if strings.Join(vs, "|") != strings.Join(before[k], "|") {
+						touched = append(touched, k)
+					}
+				}
+				for k := range before {
+					if _, ok := cw.header[k]; !ok {
+						touched = append(touched, k)
+					}
+				}
+				sort.Slice(touched, func(i, j int) bool { return touched[i].(string) < touched[j].(string) })
+				obs["headersTouched"] = orEmpty(touched)
 				// afterwards a middleware edits the header values it was given in place; that is its own response
 				for _, vs := range cw.header {
 					for i := range vs {
